@@ -749,6 +749,10 @@ def render_bound(fam, n):
         first = ", ".join(["1"] * np_ + (["+ 2", "3"] if v else []))
         second = ", ".join([("" if e else "1")] * na)
         return "#define F(%s) %s\nF(%s) F(%s)\n" % (", ".join(params), text, first, second), ["-E"]
+    if fam == "objhash":
+        body = OBJHASH_BODIES[n // 8]
+        use = ["M", "M M", "ID(M)", "XSTR(M)", "ID(ID(M) M)", "STR(M)", "M(1)", "ID(\nM\n)"][n % 8]
+        return ("#define ID(x) x\n#define STR(x) #x\n#define XSTR(x) STR(x)\n#define M %s\n%s\n" % (body, use)), ["-E"]
     if fam == "guard":
         return GUARDS[n - 1] + "\n", []
     if fam == "margs":
@@ -803,6 +807,10 @@ GUARDS = [
     "_Alignas(3) int x;", "_Alignas(0x100000000) int x;", "enum e { A = 0x7fffffffffffffff, B };", "enum e { A = 0xffffffffffffffff, B };",
 ]
 
+# replacement lists of object-like macros in which # / ## are ordinary tokens (6.10.3.2 applies to function-like macros only);
+# Bounds.tla's NObjHash must equal the length of this list and HashHash the indices (1-based) of the bodies with ##
+OBJHASH_BODIES = ["#", "# x", "# see x", "x #", "# #", "# define", "#x #y", "( # )", "##", "x ## y", "## x"]
+
 DEPTH_FAMS = {"parens", "blocks", "declparens", "pointers", "unaryneg", "dims", "elseif", "structnest", "casts", "sizeofs", "ternary",
               "lognot", "subscripts", "calls", "ifnest"}
 
@@ -814,6 +822,8 @@ def part_bounds(ctx, bins, models):
     if len(r.vcases) != 1:
         raise vlib.MachineryError("Bounds.tla: expected one VCASE line with the case set")
     cases = json.loads(r.vcases[0])["cases"]
+    if sum(1 for c in cases if c["fam"] == "objhash") != 8 * len(OBJHASH_BODIES):
+        raise vlib.MachineryError("Bounds.tla NObjHash differs from the harness' list of replacement lists")
     if sum(1 for c in cases if c["fam"] == "guard") != len(GUARDS):
         raise vlib.MachineryError("Bounds.tla NGuard differs from the harness' guard probe list")
 
@@ -881,7 +891,7 @@ SEEDS = [
     ("fixed-4544836-anon-member-designator", b"struct A { struct { int q; char r; }; int t; }; struct A o = {.q = 1, 2, 3};\n", []),
     ("union-reinit", b"union U { int a; struct { short p; char c; int a; } p; }; union U obj = {70000, .p = {1000, 1, .a = 5}};\n", []),
     ("fixed-24ff3f5-keyword-macro-twice", b"#define T int\nT a; T b;\n", []),
-    ("undef-during-args", b"#define f(x) x\nf(\n#undef f\n1)\n", ["-E"]),
+    ("fixed-499abfa-undef-during-args", b"#define f(x) x\nf(\n#undef f\n1)\n", ["-E"]),
     ("fixed-ff1537e-types-compatible-nontype", b"int v = __builtin_types_compatible_p(int, 1);\n", []),
     ("fixed-3a3e772-builtin-as-value", b"float x = __builtin_inff;\n", []),
     ("fixed-3a3e772-builtin-as-statement", b"int main(void) { __builtin_expect; }\n", []),
